@@ -177,13 +177,13 @@ Example C10_repr_old_refuted : forall long n,
 Proof. exact old_repr_diverges. Qed.
 
 Example C10_repr_cyclic_ok :
-  repr ct_demo heap_demo (fun _ => true) (repr_fuel heap_demo) 0 MNone
+  repr ct_demo heap_demo (fun _ _ => true) (repr_fuel heap_demo) 0 MNone
     = Ok (RFull 0 true [(0, RSeq [RCycle])]) /\
   (* x.a = x ; x.b = [x] *)
   repr (fun _ => mkcls [] [mkattr 0 true true true false None None;
                            mkattr 1 true false true false None None;
                            mkattr 2 true true true false None None] false false None)
-       [OInst 0 [(0, HRef 0); (1, HLeaf)]; OList [HRef 0]] (fun _ => false) 40 0 MNone
+       [OInst 0 [(0, HRef 0); (1, HLeaf)]; OList [HRef 0]] (fun _ _ => false) 40 0 MNone
     = Ok (RFull 0 false [(0, RSelf); (2, RMissing)]).
 Proof. vm_compute. split; reflexivity. Qed.
 
